@@ -15,7 +15,7 @@ func init() {
 	props["C01"] = propInfo{
 		level:     "exploration",
 		quickRuns: 10000, chunk: 100, thoroughS: 600, thoroughMax: 50000000,
-		rule: "run i draws a document spec (every physical-layout dimension an explicit field, swarm style) and a per-revision access history from splitmix64(VERIF_SEED, C01, i); the independent writer commits the file revision by revision to the simulated disk and after each commit the history (page count, pages in any order via reader and extractor APIs, boxes, rotation, font resources, cache clears, reopen, extractor sharing the reader) is executed and every answer compared with the writer's record of the newest revision. Specs that contain a listed known finding's feature set are steered away from it (probed separately). Non-trivial = at least one non-default layout feature and a non-empty history; distinct = distinct (feature set, history shape).",
+		rule: "run i draws a document spec (every physical-layout dimension an explicit field, swarm style) and a per-revision access history from splitmix64(VERIF_SEED, C01, i); the independent writer commits the file revision by revision to the simulated disk (30% of single-revision documents with one content piece made unloadable: that page fails or is complete) and after each commit the history (page count, pages in any order via reader and extractor APIs, boxes, rotation, font resources, cache clears, reopen, extractor sharing the reader) is executed and every answer compared with the writer's record of the newest revision; Text / Markdown / JSONL / Document of the whole file must equal those of the same logical document stored plainly. Specs that contain a listed known finding's feature set are steered away from it (probed separately). Non-trivial = at least one non-default layout feature and a non-empty history; distinct = distinct (feature set, history shape).",
 		assume: []string{
 			"the independent writer (harness/pdfw) emits well-formed PDF for every spec it accepts; expected text uses only code points whose encoding is beyond doubt",
 			"layouts the writer does not produce (encryption, hybrid-reference files, linearisation) are not decided",
@@ -31,7 +31,7 @@ func init() {
 	props["C04"] = propInfo{
 		level:     "exploration",
 		quickRuns: 12000, chunk: 100, thoroughS: 600, thoroughMax: 50000000,
-		rule: "indices below the size of the small space enumerate it exhaustively: n=2 object numbers, r<=2 revisions (quick) or r<=3 (thorough), every assignment of {untouched, set plainly, set in an object stream, delete} per object and revision, every legal cross-reference kind sequence, each with a seeded canonical lookup history (all numbers incl. never-defined ones and 0, cache clear, mixed get/xref/resolve/deep, all numbers again). Beyond that, run i draws n<=12 objects, r<=5 revisions of add/replace/delete with unique tagged values (ints, reals, strings, names, arrays, dicts, streams with direct or indirect /Length, the length object optionally in an object stream), table/stream history (never table after stream), containers optionally repacked and freed later, and per-revision lookup histories of 3-40 steps over get/resolve/deep/xref/resolver lookups with repeats, cache clears and reopen; 25% of the sampled runs put a simulated object source between resolver.ObjectResolver and the reader that fails chosen lookups once. Non-trivial = more than one revision or any storage feature; distinct = distinct (revision plan, history).",
+		rule: "indices below the size of the small space enumerate it exhaustively: n=2 object numbers, r<=2 revisions (quick) or r<=3 (thorough), every assignment of {untouched, set plainly, set in an object stream, delete} per object and revision, every cross-reference kind sequence (incl. a table appended after a stream), each with a seeded canonical lookup history (all numbers incl. never-defined ones and 0, cache clear, mixed get/xref/resolve/deep, all numbers again). Beyond that, run i draws n<=12 objects, r<=5 revisions of add/replace/delete with unique tagged values (ints, reals, strings, names, arrays, dicts, streams with direct or indirect /Length, the length object optionally in an object stream), values that refer to other objects of the playground (deleted later), table/stream history in any order, a first revision laid out like a linearized file (first section with a forward /Prev), 8% with 150-1050 further objects and sparse bulk updates in every end-of-line style, containers optionally repacked and freed later, and per-revision lookup histories of 3-40 steps (4%: 120-240 steps hammering one long-lived resolver) over get/resolve/deep/xref/resolver lookups with repeats, cache clears and reopen; 25% of the sampled runs put a simulated object source between resolver.ObjectResolver and the reader that fails chosen lookups once and let the file read as empty during single lookups; others misdirect one cross-reference entry at another object's superseded body. Non-trivial = more than one revision or any storage feature; distinct = distinct (revision plan, history).",
 		assume: []string{
 			"the independent writer's files are well formed; every written value is unique so each successful lookup is attributable to one write",
 			"references inside values only target objects that are never deleted (the property is silent about dangling references)",
@@ -45,7 +45,7 @@ func init() {
 	props["C10"] = propInfo{
 		level:     "exploration",
 		quickRuns: 4000, chunk: 50, thoroughS: 600, thoroughMax: 50000000,
-		rule: "run i draws a 2-6 page PDF from the independent writer (25%: an HTML, DOCX, ODT, XLSX, PPTX or EPUB file for the handle and descriptor part only) and a program of 3-25 calls over up to 8 handles: Open / FromReader roots, derived handles (Pages with any order, duplicates, 0, negatives, count+1; PageRange incl. reversed; the five option builders) from any existing handle incl. used ones, non-terminal PageCount / IsMultiColumn / IsCharacterLevel, terminal Text / Fragments / Lines / Document / Chunks / ToMarkdown, Close. 25% of the runs damage the file at rest (truncate, zero sector, bit flip) or replace it by a file-system object fault (directory, dangling symlink, empty file, /dev/null). Oracle: composition from the library's own single-page results of fresh handles, true source page numbers in the model and chunk metadata, error for out-of-range pages, and the descriptor ledger (/proc/self/fd entries on the document) equal to the model's open set after every call, with a double Close of everything at the end. Non-trivial = more than two calls; distinct = distinct program text + fault + format.",
+		rule: "run i draws a 2-6 page PDF (4%: 17-46 pages; forms with their own font names, running heads, headings, blank pages, per-page inline fonts) from the independent writer (25%: an HTML, DOCX, ODT, XLSX, PPTX or EPUB file for the handle and descriptor part only) and a program of 3-25 calls over up to 8 handles: Open / FromReader roots, derived handles (Pages with any order, duplicates, 0, negatives, count+1; PageRange incl. reversed; the five option builders) from any existing handle incl. used ones, non-terminal PageCount / IsMultiColumn / IsCharacterLevel, terminal Text / Fragments / Lines / Document / Chunks / ToMarkdown, Close. 25% of the runs damage the file at rest (truncate, zero sector, bit flip) or replace it by a file-system object fault (directory, dangling symlink, empty file, /dev/null); a further 15% make exactly one page unloadable (the others must behave as in the intact file and never carry another page's text). Oracle: composition from the library's own single-page results of fresh handles, true source page numbers in the model and chunk metadata, error for out-of-range pages, and the descriptor ledger (/proc/self/fd entries on the document) equal to the model's open set after every call, with a double Close of everything at the end. Non-trivial = more than two calls; distinct = distinct program text + fault + format.",
 		assume: []string{
 			"what an explicitly empty selection (Pages() or a reversed range only) means is not stated by the property and is not judged",
 			"warnings are not part of the compared results",
